@@ -359,9 +359,9 @@ type typedText struct {
 var typedTexts = map[string][]typedText{
 	"bool": {{"true", true}, {"false", true}, {"True", true}, {"FALSE", true}, {"yes", true}, {"Yes", true}, {"NO", true}, {"no", true}, {"on", true}, {"Off", true}, {"y", true}, {"N", true},
 		{"maybe", false}, {"1", false}, {"2", false}, {"", false}, {"truee", false}, {"nope", false}, {"t", false}},
-	"int": {{"0", true}, {"1", true}, {"7", true}, {"42", true}, {"+5", true}, {"-1", true}, {"007", true}, {"0440", true}, {"0o17", true}, {"0x10", true}, {"1_000", true}, {"0b11", true},
+	"int": {{"0", true}, {"1", true}, {"7", true}, {"42", true}, {"2147483648", true}, {"4294967296", true}, {"+5", true}, {"-1", true}, {"007", true}, {"0440", true}, {"0o17", true}, {"0x10", true}, {"1_000", true}, {"0b11", true},
 		{"abc", false}, {"1.5", false}, {"", false}, {"99999999999999999999", false}, {"1e3", false}, {"7s", false}, {"- 1", false}},
-	"uint": {{"0", true}, {"1", true}, {"7", true}, {"42", true}, {"+5", true}, {"007", true}, {"0440", true}, {"0o17", true}, {"0x10", true}, {"1_000", true},
+	"uint": {{"0", true}, {"1", true}, {"7", true}, {"42", true}, {"2147483648", true}, {"4294967296", true}, {"+5", true}, {"007", true}, {"0440", true}, {"0o17", true}, {"0x10", true}, {"1_000", true},
 		{"abc", false}, {"1.5", false}, {"", false}, {"99999999999999999999", false}, {"-1", false}, {"1e3", false}},
 	"float": {{"0.5", true}, {"1", true}, {"2", true}, {"1.25", true}, {".5", true}, {"1e0", true}, {"+0.75", true}, {"0.1", true}, {"1_0.5", true}, {"0x2", true}, {"010", true},
 		{"abc", false}, {"1.5.2", false}, {"", false}, {"1,5", false}, {"half", false}},
@@ -541,6 +541,10 @@ func judgeTyped(args, real, _ json.RawMessage) *core.Verdict {
 		if !core.CanonEqual(A.Ok, V.Ok) {
 			return core.Fail(key, where+": the plain literal and the variable give different typed values")
 		}
+	}
+	// (3b) a valid spelling (YAML-1.1 booleans, decimal integers, …) must not be rejected by a caster
+	if a.Valid && tc == "plain" && !V.isOk() && errClass(*V.Err) == "cast" {
+		return core.Fail("typed:valid-text-rejected-by-cast:"+a.Kind, where+": "+*V.Err)
 	}
 	// (4) a value that cannot be converted is an error naming the attribute path
 	if !a.Valid {
